@@ -27,6 +27,7 @@ struct HCfg {
     size_t mtu = 1500;
     int wifi = 0;
     uint64_t own = 0x020000000001ULL;
+    uint64_t own_at_start = 0;
     uint64_t stbase = 0x0200AA000000ULL;   // station k: real = stbase + (k<<8) + 1 ; bridge = +2
     uint32_t fail = 0;                     // VF_/VG_ masks
     int untrunc = 0;
@@ -40,6 +41,7 @@ struct HCfg {
         HCfg h;
         h.part = c.c(0); h.mtu = (size_t)c.c(1, 1500); h.wifi = (int)c.c(2); h.own = (uint64_t)c.c(3, 0x020000000001LL);
         h.stbase = (uint64_t)c.c(4, 0x0200AA000000LL); h.fail = (uint32_t)c.c(5); h.untrunc = (int)c.c(6); h.icon_state = (int)c.c(7, 1);
+        h.own_at_start = h.own;
         if (h.mtu < 64) h.mtu = 64;
         if (h.mtu > 65535) h.mtu = 65535;
         auto b = [&](size_t i) { return i < c.blobs.size() ? c.blobs[i] : Bytes(); };
@@ -48,7 +50,7 @@ struct HCfg {
     }
     Mac ownmac() const { return mac_from_u64(own); }
     // bits 48..51 of stbase: 1 + index of one station whose real address is a "special" one; bits 52..55: which
-    // (all-zero, a group address, all-ones-but-one, an address that differs from another station's only in its first octet)
+    // (all-zero, a group address, all-ones-but-one, an address that differs from another station's only in its first octet, the responder's own address)
     Mac st_real(int k) const {
         uint64_t base = stbase & 0xFFFFFFFFFFFFULL;
         int sp = (int)(stbase >> 48 & 0xF);
@@ -57,6 +59,7 @@ struct HCfg {
                 case 0: return mac_from_u64(0);
                 case 1: return mac_from_u64(0x01005E000001ULL);
                 case 2: return mac_from_u64(0xFFFFFFFFFFFEULL);
+                case 4: return mac_from_u64(own_at_start ? own_at_start : own);   // frames that claim to come from the responder's own address (the one it had when the case began: a station keeps its address)
                 default: return mac_from_u64((base + ((uint64_t)((k + 1) & 0xFFFF) << 8) + 1) ^ 0x800000000000ULL);
             }
         }
@@ -348,7 +351,7 @@ inline rc::Gen<HCfg> cfg_gen() {
         h.wifi = (int)*pick({0, 0, 1});
         h.own = 0x020000000000ULL | (uint64_t)*range<int64_t>(1, 0xFFFFFF);
         h.stbase = 0x0200AA000000ULL;
-        if (*chance(8)) h.stbase |= ((uint64_t)*range<int64_t>(1, 3) << 48) | ((uint64_t)*range<int64_t>(0, 3) << 52);   // one station with an unusual real address
+        if (*chance(8)) h.stbase |= ((uint64_t)*range<int64_t>(1, 3) << 48) | ((uint64_t)*range<int64_t>(0, 4) << 52);   // one station with an unusual real address
         h.untrunc = (int)*pick({0, 0, 0, 1});
         h.hostname = *bytes(0, 40);
         h.ssid = *bytes(0, 40);
